@@ -964,7 +964,10 @@ void ThreadPool::scheduleBulkToRings(
   if (count == 0) {
     return;
   }
-  assert(count <= numRings_.load(std::memory_order_relaxed));
+  // No assert(count <= numRings_) here: the caller tested that without a lock, and a concurrent
+  // shrinking resize() may legally publish a smaller ring count in between.  The code below re-reads
+  // the count and distributes ceil(count / ringCount) tasks per ring (overflow goes to the central
+  // queue), so the smaller value is handled.
 
   workRemaining_.fetch_add(static_cast<ssize_t>(count), std::memory_order_release);
 
